@@ -644,7 +644,7 @@ def build_blocking(sx: SymExec):
         st_save = Stage(f"{cname}.as_dict (sql_dialect deleted by the path loader) -> CustomRule(**dict)",
                         rules_nodialect, cr_loader)
         st_create = Stage(f"CustomRule.create_blocking_rule_dict -> blocking_rule_to_obj -> {cname}",
-                          [r for r in crules if r[0] in fields_here or r[0] in ("salting_partitions", "arrays_to_explode")],
+                          crules,
                           loader + [(k, None, ("field", k), False) for k in ("salting_partitions", "arrays_to_explode")
                                     if k not in fields_here])
         fields = []
@@ -664,8 +664,10 @@ def build_blocking(sx: SymExec):
                       doc=f"{cname}.as_dict -> CustomRule(**dict) -> create_blocking_rule_dict -> blocking_rule_to_obj")
         pl.paths = dict(stored.paths)
         out.append(pl)
-        if specials[cname] and not all(k in [r[0] for r in rules] for k in specials[cname]):
-            pass
+        for k in specials[cname]:
+            if k not in [r[0] for r in rules]:
+                SHAPE_PROBLEMS.append({"group": "blocking_keys", "shape": True,
+                                       "why": f"{cname}.as_dict does not emit its own key {k}"})
     return out
 
 
@@ -718,6 +720,50 @@ BUILDERS = [("level", build_level), ("comparison", build_comparison), ("settings
 
 SHAPE_PROBLEMS: list = []
 
+# Functions on the reload / construction path whose behaviour the pipelines ASSUME (key routing in
+# _convert_to_creator, the SettingsCreator dict plumbing, the class dispatch of blocking_rule_to_obj, the
+# constructor-side validation hooks): pinned by a digest of their statement structure (docstrings and
+# comments ignored).  Any edit fails the obligation (fail-closed); the models' behaviour under the edit
+# is then exercised by X only.
+PINNED = {
+    "comparison_level_library.CustomLevel._convert_to_creator": "b4e204e000df8bc1",
+    "settings_creator.SettingsCreator._as_naive_dict": "8dcfa31d90cc5395",
+    "settings_creator.SettingsCreator._as_creator_dict": "b4151355df18edae",
+    "settings_creator.SettingsCreator.get_settings": "dc1cd400fa662b10",
+    "settings_creator.SettingsCreator.create_settings_dict": "9e8628ff09358b54",
+    "blocking.blocking_rule_to_obj": "d7b7fa14c76c3717",
+    "blocking_rule_creator_utils.to_blocking_rule_creator": "ba67bcfd8d1850db",
+    "comparison_level.ComparisonLevel._validate": "59645d299644b2df",
+    "comparison_level.ComparisonLevel._validate_sql": "8273552f276dc5eb",
+    "comparison_creator.ComparisonCreator.get_comparison": "cc78d2f0da50a0a0",
+    "comparison_level_creator.ComparisonLevelCreator.get_comparison_level": "30bd17f48cbe3890",
+    "blocking_rule_creator.BlockingRuleCreator.get_blocking_rule": "8045a638bcebe4b1",
+}
+
+
+def structure_digest(name):
+    import hashlib
+    import importlib
+    modname, *path = name.split(".")
+    obj = importlib.import_module("splink.internals." + modname)
+    for part in path:
+        obj = inspect.getattr_static(obj, part) if inspect.isclass(obj) else getattr(obj, part)
+    fn = obj.__func__ if isinstance(obj, (staticmethod, classmethod)) else obj
+    fd = ast.parse(textwrap.dedent(inspect.getsource(fn))).body[0]
+    return hashlib.sha1(normalised_body(fd).encode()).hexdigest()[:16]
+
+
+def check_pinned(problems):
+    for name, want in PINNED.items():
+        try:
+            got = structure_digest(name)
+        except Exception as e:
+            got = f"unreadable: {e!r}"[:60]
+        if got != want:
+            problems.append({"group": "pinned_shape", "shape": True,
+                             "why": f"{name} is assumed by the pipelines and no longer has the pinned statement structure "
+                                    f"({got} != {want})"})
+
 
 def build_all():
     """returns (pipelines, failures, notes, opaque)"""
@@ -734,6 +780,7 @@ def build_all():
             failures.append({"group": name, "why": str(e)})
         notes += [n for n in sx.notes if n not in notes]
         opaque += [o for o in sx.opaque if o not in opaque]
+    check_pinned(SHAPE_PROBLEMS)
     try:
         check_save_route(SHAPE_PROBLEMS)
     except Exception as e:      # fail closed
